@@ -1,5 +1,6 @@
 import Props.C16
 import Proofs.C19Order
+import Proofs.C19Passes
 import GoawkModel.Generated.C19Maps
 import GoawkModel.Generated.C19Writes
 import GoawkModel.Generated.C19PkgVars
@@ -28,6 +29,23 @@ theorem parse_covers (p : Program) (iter : List Name → List Name) : Covers (go
 theorem parse_exact (p : Program) (iter : List Name → List Name) (wf : WF p) (hb : p.builtins ≠ []) :
     (∃ s, parse iter p = .ok s) ↔ Consistent p :=
   resolve_exact p (goOrder iter p) wf hb (goOrder_covers iter p)
+
+/-- Determinism pass by pass: even if every pass of the resolver recomputed its function order under a map iteration order of
+its own, the result would be the one `ParseProgram` gives — every pass walks the same (sorted) order. -/
+theorem parse_passes_deterministic (p : Program) (i₀ : List Name → List Name) (is : Nat → List Name → List Name)
+    (h₀ : IsIter i₀) (hs : ∀ k, IsIter (is k)) :
+    resolveWith p (goOrder i₀ p) (fun k => goOrder (is k) p) = parse id p := by
+  have hid : IsIter (id : List Name → List Name) := fun l => List.Perm.refl l
+  have h : (fun k => goOrder (is k) p) = fun _ => goOrder id p := funext fun k => goOrder_iter (hs k) hid p
+  rw [h, goOrder_iter h₀ hid p]
+  exact resolveWith_const p (goOrder id p)
+
+/-- …and this is not a consequence of "every pass visits every function": the order walked by the extra passes is observable.
+For a program whose type clash surfaces only in the second pass, walking a permutation of the order in the extra passes reports
+a different error at a different place (the seeded change C19-q1: extra passes that revisit functions in map order). -/
+theorem later_pass_order_observable :
+    ∃ (p : Program) (o o' : List Name), o'.Perm o ∧ resolveWith p o (fun _ => o') ≠ resolveWith p o (fun _ => o) :=
+  later_pass_order_matters
 
 /-! ### regenerated source facts -/
 
@@ -63,6 +81,11 @@ theorem no_order_sensitive_range :
 /-- no statement of package interp writes through the shared Program -/
 theorem gen_matches_programWrites : Generated.C19Writes.programWrites = [] := by decide
 
+/-- no method of the Program types (everything an interpreter can call on the shared Program: IterVars, IterFuncs, LookupFunc,
+String, Disassemble, …) assigns into the Program, directly or through a local alias: nothing is built lazily on first use, so the
+first executions of a fresh Program read exactly what later ones read -/
+theorem gen_matches_programMethodWrites : Generated.C19Writes.programMethodWrites = [] := by decide
+
 /-- package-level slices/maps of package interp (state shared by all interpreters) and how they are initialised -/
 def expectedPackageVars : List (String × String × String) := [("defaultShellCommand", "slice", "exact-cap")]
 
@@ -91,5 +114,11 @@ example : IsIter List.reverse := fun l => List.reverse_perm l
 example : parse id exF22 = .error (5, 1, .useAs .array 4 .scalar) := rfl
 example : parse List.reverse exF22 = .error (5, 1, .useAs .array 4 .scalar) := rfl
 example : goOrder id exF22 = [5, 6, 0, 7] := by decide
+
+/-! non-vacuity for the pass-by-pass statement: `exLate` (two carrier chains, Proofs/C19Passes.lean) reaches its verdict in the
+second pass, and reversing every map iteration reports the same error at the same place -/
+example : passesRun exLate (goOrder id exLate) = 2 := exLate_passes
+example : parse id exLate = .error (6, 4, .passAs .scalar 13 .array) := rfl
+example : parse List.reverse exLate = .error (6, 4, .passAs .scalar 13 .array) := rfl
 
 end GoawkModel.C16
